@@ -214,7 +214,7 @@ impl AsepriteFile {
             file: self,
             cel_id: CelId {
                 frame: frame as u16,
-                layer: layer as u16,
+                layer,
             },
         }
     }
@@ -380,7 +380,7 @@ impl AsepriteFile {
             CelContent::Linked(frame) => {
                 if let Some(cel) = self.framedata.cel(CelId {
                     frame: *frame,
-                    layer: data.layer_index,
+                    layer: data.layer_index as u32,
                 }) {
                     if let CelContent::Linked(_) = cel.content {
                         panic!(
@@ -451,7 +451,7 @@ impl<'a> Frame<'a> {
         assert!(layer_id < self.file.num_layers());
         let cel_id = CelId {
             frame: self.index as u16,
-            layer: layer_id as u16,
+            layer: layer_id,
         };
         Cel {
             file: self.file,
